@@ -21,6 +21,15 @@ class Infra(Exception):
     pass
 
 
+class LibraryBroken(Infra):
+    """A conformance driver that builds on the baseline tree no longer compiles, and the compiler's first error is INSIDE the library's
+    headers: the library stopped instantiating for types the property quantifies over.  Reported as a violation (P_Instantiates), not as
+    an infrastructure error; an error located in the driver itself stays an infrastructure error."""
+    def __init__(self, targets, first_error, logpath):
+        Infra.__init__(self, 'library headers no longer compile for ' + ' '.join(targets))
+        self.targets, self.first_error, self.logpath = targets, first_error, logpath
+
+
 def log(*a):
     print(*a, flush=True)
 
@@ -61,6 +70,12 @@ class Ctx:
         p = subprocess.run(cmd, stdout=subprocess.PIPE, stderr=subprocess.STDOUT, text=True, timeout=timeout)
         if p.returncode != 0:
             log(p.stdout[-6000:])
+            m = re.search(r'^(\S+?):\d+:\d+: (?:fatal )?error: .*$', p.stdout, re.M)
+            if m and os.path.realpath(m.group(1)).startswith(os.path.realpath(REPO) + os.sep):
+                os.makedirs(self.dir, exist_ok=True)
+                lp = os.path.join(self.dir, 'build-failure.log')
+                open(lp, 'w').write(p.stdout)
+                raise LibraryBroken(targets, m.group(0)[-300:], lp)
             raise Infra('harness build failed: ' + ' '.join(targets))
         log('[build] %s in %.1fs' % (' '.join(targets), time.time() - t))
         return [os.path.join(HARNESS, BUILD, x) for x in targets]
